@@ -621,6 +621,9 @@ class World(object):
             if shape == 'tuple':
                 r.args['topics'] = [(t0, qos)]
                 return c.proto.subscribe((t0, qos))
+            if shape == 'empty':
+                r.args['topics'] = []
+                return c.proto.subscribe([])
             r.args['topics'] = [(t0, qos), (t1, (qos + 1) % 3)]
             return c.proto.subscribe([(t0, qos), (t1, (qos + 1) % 3)])
         self._api('sub', c, dict(shape=shape, qos=qos), go)
@@ -633,6 +636,9 @@ class World(object):
             if shape == 'str':
                 r.args['topics'] = [t0]
                 return c.proto.unsubscribe(t0)
+            if shape == 'empty':
+                r.args['topics'] = []
+                return c.proto.unsubscribe([])
             r.args['topics'] = [t0, t1]
             return c.proto.unsubscribe([t0, t1])
         self._api('unsub', c, dict(shape=shape), go)
